@@ -295,7 +295,7 @@ class Mon:
             if peak > 64 * q + (2 << 20):
                 rec.violation('repetition-allocated-before-refusal', '%s with memoryQuota=%d: tracemalloc peak %d bytes' % (
                     text, q, peak), replay)
-            if out[0] != 'exc' or not isinstance(out[1], yexc.MemoryQuotaExceededException):
+            if repetition != 'peak' and (out[0] != 'exc' or not isinstance(out[1], yexc.MemoryQuotaExceededException)):
                 rec.violation('repetition-not-refused:%s' % (
                     hooks.tb_site(out[1]) if out[0] == 'exc' else 'value'), '%s with memoryQuota=%d gave %s' % (text, q, _short(out)), replay)
         return out
@@ -559,6 +559,12 @@ def mem_exprs(q, rng):
     e += [("'a' * %d" % big, True), ("%d * 'a'" % big, True), ('[0] * %d' % big, True), ('%d * [0, 1]' % big, True),
           ("'abc' * %d" % (big * 1000), True), ('[[1], [2]] * %d' % big, True), ('[] * %d' % big, False),
           ("'' * %d" % big, False)]
+    # counted repetition through the repeat() function: lazily produced, so nothing of the nominal size is ever
+    # allocated whatever the consumer does (judged by the allocation peak only)
+    rn = 10 ** 8
+    e += [('1.repeat(%d)' % rn, 'peak'), ('1.repeat(%d).take(2)' % rn, 'peak'), ("'ab'.repeat(%d).first()" % rn, 'peak'),
+          ('repeat(null, %d).len()' % rn, 'peak'), ('[1, 2].repeat(%d).select($).take(1)' % rn, 'peak'),
+          ('let(r => 1.repeat(%d)) -> 7' % rn, 'peak'), ('1.repeat(%d).any()' % rn, 'peak')]
     return e
 
 
@@ -568,9 +574,12 @@ def _memory(spec, mon, rec):
     MEM_CAP[0] = 12000 if spec['tier'] == 'thorough' else 6000
     exprs = mem_exprs(q, rng)
     rng.shuffle(exprs)
+    exprs = [x for x in exprs if x[1]] + [x for x in exprs if not x[1]]      # repetition cases survive the truncation
     exprs = exprs[spec['part']::spec['parts']][:spec['count']]
     for i, (text, rep) in enumerate(exprs):
         extra = {'limitIterators': 10 ** 6} if i % 3 == 0 else None
+        if rep == 'peak':
+            extra = {'limitIterators': 10 ** 4}
         mon.memory_case(text, q, repetition=rep, extra_opts=extra)
         if i % 40 == 0:
             rec.sample({'kind': 'memory', 'text': text, 'Q': q})
